@@ -10,6 +10,10 @@ package http3
 // Oracle: the parser accepts, and what it hands to net/http equals the fields the message has
 // (computed by the model from the message, never from the writer's output).
 //
+// The response oracle (c19JudgeRspWire) is shared with part "writer-response-ops"
+// (c19_rspops_test.go), which replaces the fixed handler script below by every sequence of
+// ResponseWriter calls up to a length bound.
+//
 // Content-Length: both lattices let the message itself carry a Content-Length field (set by the
 // handler on the ResponseWriter, resp. put into http.Request.Header) over an alphabet of
 // spellings around "1*DIGIT, representable" (c19CLSpellings), combined with body lengths 0 / 5 /
